@@ -162,10 +162,28 @@ pub enum Chunk {
     /// (measured: 256 MiB written in under 3 s with nobody reading). Writes that are a little apart
     /// travel as about one frame each.
     K16Paced,
+    /// "optimistic data" (with-request sub-matrix only, not in `ALL`; SOCKS entry points only): the
+    /// local client does not wait for the proxy's reply before it sends. The first
+    /// min(len, `WITH_REQUEST_HEAD`) payload bytes travel in the SAME `write_all` as the CONNECT
+    /// request (SOCKS5: after the method negotiation), then the client reads the reply, then the
+    /// rest of the payload follows in one write. (The target writes its payload in one write.)
+    WithRequest,
 }
 
 /// `Chunk::K16Paced`: the pause after every write
 pub const K16_PAUSE: Duration = Duration::from_millis(1);
+/// `Chunk::WithRequest`: at most this many payload bytes travel with the request (request and
+/// bytes together stay far below one loopback segment and below any 8 KiB read buffer, so the
+/// proxy gets them with the very read that gets it the request)
+pub const WITH_REQUEST_HEAD: usize = 1000;
+/// `Chunk::WithRequest`: what every violation key of such a scenario ends in
+pub const WITH_REQUEST_KEY_SUFFIX: &str = ".with-request";
+/// `Chunk::WithRequest`: the entry points of the sub-matrix (a client of an HTTP proxy may not
+/// send before the 2xx, and a plain remote has no request)
+pub const WITH_REQUEST_ENTRIES: [Entry; 4] = [Entry::Socks4, Entry::Socks4a, Entry::Socks5Ip, Entry::Socks5Domain];
+/// `Chunk::WithRequest`: the close orders of the sub-matrix (those in which the local client
+/// writes its whole payload at once)
+pub const WITH_REQUEST_ORDERS: [Order; 3] = [Order::ClientHalf, Order::ClientClose, Order::TargetClose];
 
 impl Chunk {
     pub const ALL: [Chunk; 3] = [Chunk::One, Chunk::Bytes64, Chunk::Seven];
@@ -176,10 +194,11 @@ impl Chunk {
             Chunk::Seven => "7-byte",
             Chunk::K16 => "16-KiB-writes",
             Chunk::K16Paced => "16-KiB-writes-1-ms-apart",
+            Chunk::WithRequest => "first-bytes-in-the-same-write-as-the-proxy-request",
         }
     }
     pub fn parse(s: &str) -> Option<Self> {
-        Self::ALL.into_iter().chain([Chunk::K16, Chunk::K16Paced]).find(|e| e.name() == s)
+        Self::ALL.into_iter().chain([Chunk::K16, Chunk::K16Paced, Chunk::WithRequest]).find(|e| e.name() == s)
     }
 }
 
@@ -347,6 +366,10 @@ impl TcpCase {
                 SlowDir::Upload => "every target connection waits slow_reader_stall_s seconds after it was accepted before its first read, then reads to the end; the local client writes its payload at once",
             });
         }
+        if self.chunk == Chunk::WithRequest {
+            v["with_request_bytes"] = json!(self.with_request_head());
+            v["with_request_rule"] = json!("every local client sends the first with_request_bytes = min(c2t_len, 1000) bytes of its payload in the SAME write_all as its SOCKS CONNECT request (SOCKS5: the method negotiation comes first, in lock-step), then reads the proxy's reply, then writes the rest of its payload in one write; the target writes its payload in one write");
+        }
         v
     }
     fn to_json_plain(&self) -> Value {
@@ -388,6 +411,14 @@ impl TcpCase {
     /// whatever the deadline of the other scenarios is.
     pub fn deadline_s(&self, base: u64) -> u64 {
         self.slow.map_or(base, |s| base.max(s.stall_s + SLOW_TRANSFER_S))
+    }
+    /// `Chunk::WithRequest`: how many payload bytes of every local connection travel with the request
+    pub fn with_request_head(&self) -> usize {
+        if self.chunk == Chunk::WithRequest { self.c2t.min(WITH_REQUEST_HEAD) } else { 0 }
+    }
+    /// Is this a point of the with-request sub-matrix as `c01.rs::with_request_matrix` builds them?
+    fn with_request_well_formed(&self) -> bool {
+        self.chunk != Chunk::WithRequest || (WITH_REQUEST_ENTRIES.contains(&self.entry) && WITH_REQUEST_ORDERS.contains(&self.order) && self.c2t > 0 && self.dual.is_none() && self.slow.is_none())
     }
     /// Is this a point of the slow-reader sub-matrix as `c01.rs::slow_matrix` builds them?
     fn slow_well_formed(&self) -> bool {
@@ -517,10 +548,11 @@ fn lock(s: &Shared) -> std::sync::MutexGuard<'_, Side> {
     s.lock().unwrap_or_else(std::sync::PoisonError::into_inner)
 }
 
-async fn write_chunked<W: AsyncWrite + Unpin>(w: &mut W, data: &[u8], chunk: Chunk, st: &Shared) -> std::io::Result<()> {
+/// `base`: payload bytes of this end that are on their way already (counted in `tx_bytes`).
+async fn write_chunked<W: AsyncWrite + Unpin>(w: &mut W, data: &[u8], chunk: Chunk, st: &Shared, base: usize) -> std::io::Result<()> {
     let mut at = 0usize;
     let small_until = match chunk {
-        Chunk::One | Chunk::K16 | Chunk::K16Paced => 0,
+        Chunk::One | Chunk::K16 | Chunk::K16Paced | Chunk::WithRequest => 0,
         Chunk::Bytes64 => data.len().min(64),
         Chunk::Seven => data.len().min(4200),
     };
@@ -530,19 +562,19 @@ async fn write_chunked<W: AsyncWrite + Unpin>(w: &mut W, data: &[u8], chunk: Chu
         w.write_all(&data[at..end]).await?;
         w.flush().await?;
         at = end;
-        lock(st).tx_bytes = at;
+        lock(st).tx_bytes = base + at;
         tokio::task::yield_now().await;
     }
     let big = match chunk {
         Chunk::Seven => 65521,
         Chunk::K16 | Chunk::K16Paced => 16 * 1024,
-        Chunk::One | Chunk::Bytes64 => usize::MAX,
+        Chunk::One | Chunk::Bytes64 | Chunk::WithRequest => usize::MAX,
     };
     while at < data.len() {
         let end = at.saturating_add(big).min(data.len());
         w.write_all(&data[at..end]).await?;
         at = end;
-        lock(st).tx_bytes = at;
+        lock(st).tx_bytes = base + at;
         if chunk == Chunk::K16Paced {
             tokio::time::sleep(K16_PAUSE).await;
         }
@@ -603,8 +635,14 @@ async fn read_then_linger<R: AsyncRead + Unpin>(r: &mut R, st: &Shared, expect: 
 
 /// `stall`: this end is a slow reader. It does not read for that long (its writer is not held up),
 /// then notes how far the writing ends of the other side (their states) have got, and reads.
+/// `sent`: the first `sent` bytes of `data` were written before (with the proxy request,
+/// `Chunk::WithRequest`; only for the roles that write their whole payload at once); 0 everywhere else.
 #[allow(clippy::too_many_arguments)]
-async fn run_side(io: BoxIo, role: Role, data: Vec<u8>, expect: usize, chunk: Chunk, st: Shared, conn: usize, dir: u8, stall: Option<(Duration, Vec<Shared>)>) {
+async fn run_side(io: BoxIo, role: Role, data: Vec<u8>, sent: usize, expect: usize, chunk: Chunk, st: Shared, conn: usize, dir: u8, stall: Option<(Duration, Vec<Shared>)>) {
+    let sent = sent.min(data.len());
+    if sent > 0 {
+        lock(&st).tx_bytes = sent;
+    }
     let (mut rd, mut wr) = tokio::io::split(io);
     let (eof_tx, eof_rx) = oneshot::channel::<()>();
     let st_r = st.clone();
@@ -626,13 +664,13 @@ async fn run_side(io: BoxIo, role: Role, data: Vec<u8>, expect: usize, chunk: Ch
             match role {
                 Role::HalfResponder => {
                     let cut = data.len() / 2;
-                    write_chunked(&mut wr, &data[..cut], chunk, &st_w).await?;
+                    write_chunked(&mut wr, &data[..cut], chunk, &st_w, 0).await?;
                     let _ = eof_rx.await;
                     {
                         let mut g = lock(&st_w);
                         g.second_half_at = Some(g.rx.len());
                     }
-                    write_chunked(&mut wr, &data[cut..], chunk, &st_w).await?;
+                    write_chunked(&mut wr, &data[cut..], chunk, &st_w, cut).await?;
                     {
                         let mut g = lock(&st_w);
                         g.tx_bytes = data.len();
@@ -640,11 +678,11 @@ async fn run_side(io: BoxIo, role: Role, data: Vec<u8>, expect: usize, chunk: Ch
                     wr.shutdown().await?;
                 }
                 Role::HalfCloser | Role::HalfThenCloser => {
-                    write_chunked(&mut wr, &data, chunk, &st_w).await?;
+                    write_chunked(&mut wr, &data[sent..], chunk, &st_w, sent).await?;
                     wr.shutdown().await?;
                 }
                 Role::Streamer => {
-                    write_chunked(&mut wr, &data, chunk, &st_w).await?;
+                    write_chunked(&mut wr, &data[sent..], chunk, &st_w, sent).await?;
                     lock(&st_w).payload_written = true;
                     // the other end's payload and its half-close (or whatever ended the reading)
                     let _ = eof_rx.await;
@@ -666,7 +704,7 @@ async fn run_side(io: BoxIo, role: Role, data: Vec<u8>, expect: usize, chunk: Ch
                     }
                 }
                 Role::Closer | Role::CloseResponder | Role::RefuseProbe => {
-                    write_chunked(&mut wr, &data, chunk, &st_w).await?;
+                    write_chunked(&mut wr, &data[sent..], chunk, &st_w, sent).await?;
                 }
             }
             Ok(())
@@ -852,7 +890,14 @@ async fn client_conn(i: usize, case: TcpCase, ep: Arc<EntryPoint>, target: Socke
     };
     let ip = Ipv4Addr::LOCALHOST;
     let port = target.port();
+    // `Chunk::WithRequest`: the bytes that do not wait for the proxy's reply
+    let c2t_payload = payload(case.c2t, i, 0);
+    let head = case.with_request_head();
     let shake = match case.entry {
+        Entry::Socks4 if head > 0 => proto::socks4_connect_with(&mut io, ip, port, None, &c2t_payload[..head]).await,
+        Entry::Socks4a if head > 0 => proto::socks4_connect_with(&mut io, ip, port, Some(&domain), &c2t_payload[..head]).await,
+        Entry::Socks5Ip if head > 0 => proto::socks5_connect_with(&mut io, IpAddr::V4(ip), port, None, &c2t_payload[..head]).await,
+        Entry::Socks5Domain if head > 0 => proto::socks5_connect_with(&mut io, IpAddr::V4(ip), port, Some(&domain), &c2t_payload[..head]).await,
         Entry::TcpRemote | Entry::UnixRemote | Entry::TcpRemoteV6 => Shake::Granted,
         Entry::Socks4 => proto::socks4_connect(&mut io, ip, port, None).await,
         Entry::Socks4a => proto::socks4_connect(&mut io, ip, port, Some(&domain)).await,
@@ -879,7 +924,7 @@ async fn client_conn(i: usize, case: TcpCase, ep: Arc<EntryPoint>, target: Socke
             Order::TargetHalfThenClose => Role::Streamer,
             Order::ClientHalfThenClose => Role::HalfThenCloser,
         };
-        run_side(io, role, payload(case.c2t, i, 0), case.t2c, case.chunk, st.clone(), i, 0, stall).await;
+        run_side(io, role, c2t_payload, head, case.t2c, case.chunk, st.clone(), i, 0, stall).await;
     }
     let _ = done.send(());
 }
@@ -1002,7 +1047,7 @@ pub async fn run_tcp(mode: &Mode<'_>, case: &TcpCase, deadline_s: u64, uniq: u64
     if case.dual.is_some() && (!DUAL_ENTRIES.contains(&case.entry) || case.conc != 1) {
         return machinery(format!("{}: not a point of the matrix", case.label()));
     }
-    if !case.slow_well_formed() {
+    if !case.slow_well_formed() || !case.with_request_well_formed() || (case.chunk == Chunk::WithRequest && matches!(mode, Mode::Control(_))) {
         return machinery(format!("{}: not a point of the matrix", case.label()));
     }
 
@@ -1125,7 +1170,7 @@ pub async fn run_tcp(mode: &Mode<'_>, case: &TcpCase, deadline_s: u64, uniq: u64
                 let (expect, chunk) = (case2.c2t, case2.chunk);
                 let stall_t = stall_t.clone();
                 tokio::spawn(async move {
-                    run_side(Box::new(s), role, data, expect, chunk, st, j, 1, stall_t).await;
+                    run_side(Box::new(s), role, data, 0, expect, chunk, st, j, 1, stall_t).await;
                     let _ = done3.send(());
                 });
             }
@@ -1232,8 +1277,8 @@ pub async fn run_tcp(mode: &Mode<'_>, case: &TcpCase, deadline_s: u64, uniq: u64
     }
 
     let lab = case.label();
-    // slow-reader sub-matrix: same oracle, keys of their own
-    let key_sfx = case.slow.map_or("", |s| s.dir.key_suffix());
+    // slow-reader and with-request sub-matrices: same oracle, keys of their own
+    let key_sfx = case.slow.map_or(if case.chunk == Chunk::WithRequest { WITH_REQUEST_KEY_SUFFIX } else { "" }, |s| s.dir.key_suffix());
     let mut push = |key: String, desc: String, dl: bool| failures.push(Failure { key: if key == "machinery" { key } else { format!("{key}{key_sfx}") }, desc: format!("{lab}: {desc}{subject_note}"), deadline: dl });
 
     // connection establishment / handshake
